@@ -13,22 +13,23 @@ import (
 	"strings"
 )
 
+// the value octets are written V here: `*b`, `(*b)` and a local alias of it (`data := *b`) all become V
 var shapeOf = map[string]string{
-	"(*b)[0] == 1":                    "bool_eq1",
-	"(*b)[0]":                         "u8",
-	"binary.BigEndian.Uint16(*b)":     "u16",
-	"binary.BigEndian.Uint32(*b)":     "u32",
-	"binary.BigEndian.Uint64(*b)":     "u64",
-	"int8((*b)[0])":                   "i8",
-	"int16(binary.BigEndian.Uint16(*b))": "i16",
-	"int32(binary.BigEndian.Uint32(*b))": "i32",
-	"int64(binary.BigEndian.Uint64(*b))": "i64",
-	"math.Float32frombits(binary.BigEndian.Uint32(*b))": "f32",
-	"math.Float64frombits(binary.BigEndian.Uint64(*b))": "f64",
-	"net.HardwareAddr(*b)":            "mac",
-	"string(*b)":                      "str",
-	"net.IP(*b)":                      "ip",
-	"*b":                              "raw",
+	"V[0] == 1":                       "bool_eq1",
+	"V[0]":                            "u8",
+	"binary.BigEndian.Uint16(V)":      "u16",
+	"binary.BigEndian.Uint32(V)":      "u32",
+	"binary.BigEndian.Uint64(V)":      "u64",
+	"int8(V[0])":                      "i8",
+	"int16(binary.BigEndian.Uint16(V))": "i16",
+	"int32(binary.BigEndian.Uint32(V))": "i32",
+	"int64(binary.BigEndian.Uint64(V))": "i64",
+	"math.Float32frombits(binary.BigEndian.Uint32(V))": "f32",
+	"math.Float64frombits(binary.BigEndian.Uint64(V))": "f64",
+	"net.HardwareAddr(V)":             "mac",
+	"string(V)":                       "str",
+	"net.IP(V)":                       "ip",
+	"V":                               "raw",
 }
 
 func genInterp() {
@@ -76,15 +77,26 @@ func genInterp() {
 				}
 			}
 		case "Interpret":
-			for i, st := range fd.Body.List {
+			env := map[string]ast.Expr{"*b": ast.NewIdent("V")}
+			canon := func(e ast.Expr) string { return exprString(substExpr(e, env)) }
+			first := true
+			for _, st := range fd.Body.List {
+				// a local alias of the value octets: data := *b
+				if as, ok := st.(*ast.AssignStmt); ok && first && len(as.Lhs) == 1 && len(as.Rhs) == 1 && as.Tok == token.DEFINE && canon(as.Rhs[0]) == "V" {
+					if id, ok := as.Lhs[0].(*ast.Ident); ok {
+						env[id.Name] = ast.NewIdent("V")
+						continue
+					}
+				}
 				switch s := st.(type) {
 				case *ast.IfStmt:
-					// if len(*b) < t.minLen() { return *b }
-					if i == 0 && exprString(s.Cond) == "len(*b) < t.minLen()" && len(s.Body.List) == 1 && s.Else == nil {
-						if r, ok := s.Body.List[0].(*ast.ReturnStmt); ok && len(r.Results) == 1 && exprString(r.Results[0]) == "*b" {
+					// if len(*b) < t.minLen() { return *b }   (before anything else looks at the octets)
+					if first && canon(s.Cond) == "len(V) < t.minLen()" && len(s.Body.List) == 1 && s.Else == nil {
+						if r, ok := s.Body.List[0].(*ast.ReturnStmt); ok && len(r.Results) == 1 && canon(r.Results[0]) == "V" {
 							guardOK = true
 						}
 					}
+					first = false
 				case *ast.SwitchStmt:
 					if exprString(s.Tag) != "t" {
 						problem("interpret.go: Interpret switches on %s", exprString(s.Tag))
@@ -94,7 +106,7 @@ func genInterp() {
 						shape := "?"
 						if len(cc.Body) == 1 {
 							if r, ok := cc.Body[0].(*ast.ReturnStmt); ok && len(r.Results) == 1 {
-								src := exprString(r.Results[0])
+								src := canon(r.Results[0])
 								if sh, ok := shapeOf[src]; ok {
 									shape = sh
 								} else {
@@ -113,7 +125,7 @@ func genInterp() {
 					}
 				case *ast.ReturnStmt:
 					if len(s.Results) == 1 {
-						src := exprString(s.Results[0])
+						src := canon(s.Results[0])
 						if sh, ok := shapeOf[src]; ok {
 							shapeDefault = sh
 						} else {
